@@ -362,6 +362,9 @@ func (st *Runtime) executeYieldBlock(block *BlockNode, blockParam, yieldParam *B
 			p := &yieldParam.List[i]
 
 			if p.Expression == nil {
+				if i >= len(blockParam.List) {
+					block.errorf("missing value for yield argument '%s'", p.Identifier)
+				}
 				block.errorf("missing name for block parameter '%s'", blockParam.List[i].Identifier)
 			}
 
